@@ -591,13 +591,20 @@ class StmtMixin:
         no, spec = self.loop_spec(s)
         return self.run_loop(s, st, no, spec, test=s.test, pre_body=None)
 
-    def run_loop(self, s, st, no, spec, test, pre_body, post_iter=None, extra_env=None):
+    def run_loop(self, s, st, no, spec, test, pre_body, post_iter=None, extra_env=None, refresh=None):
         invs = spec.get('inv', [])
+        # ghost lets: names for values at loop entry (mathematical values: sequences / ints), usable in the invariants
+        for gname, gsrc in spec.get('let', {}).items():
+            gv, sides = self.spec(gsrc, st, old=self.entry, out=st.out)
+            st.assume(*sides)
+            st.env[gname] = gv
         # 1. invariant holds on entry
         for k, inv in enumerate(invs):
             self.oblige_spec('inv-init.L%d.i%d' % (no, k), inv, st, s, kind='inv-init', old=self.entry, out=st.out)
         # 2. arbitrary iteration
         h = self.havoc_for_loop(st, s, spec)
+        if refresh is not None:
+            refresh(h)          # engine-owned views of the heap (the iterated list) follow the havocked heap before the invariant is assumed
         for inv in invs:
             self.assume_spec(inv, h, old=self.entry, out=h.out)
         variant0 = None
@@ -818,7 +825,8 @@ class StmtMixin:
         s._ghost_targets = [fake]
         spec2 = dict(spec)
         spec2['inv'] = ['0 <= %s' % kname, '%s <= len(%s)' % (kname, sname)] + list(spec.get('inv', []))
-        return self.run_loop(s, st, no, spec2, test=None, pre_body=pre_body, post_iter=post_iter)
+        return self.run_loop(s, st, no, spec2, test=None, pre_body=pre_body, post_iter=post_iter,
+                             refresh=(lambda h: h.env.__setitem__(sname, get_seq(h))) if kind == 'list' else None)
 
     def enumeration(self, it, st):
         """arbitrary duplicate-free enumeration of a set / dict: any iteration order (hash-seed independence is forced)"""
